@@ -248,21 +248,43 @@ package spdxexp
 //@   ensures[C03] okExp(exp)
 //@   ensures[C03] result == nil ==> exp.expression == old(exp.expression) && exp.index == old(exp.index) && exp.removed == old(exp.removed)
 //@   ensures[C05,C15] result != nil ==> rel(exp, orig) && exp.index >= old(exp.index) - 9
+//@   ensures[C05,C08,C09] result != nil <==> validId(license, old(exp.index < len(exp.expression) && exp.expression[exp.index:exp.index + 1] == "+"))
+//@   ensures[C09,C06] result != nil ==> (result.role == 3 || result.role == 4) && (occc(ActiveSeq(), ActiveLen(), result.value) || occc(ExceptionSeq(), ExceptionLen(), result.value) || occc(DeprecatedSeq(), DeprecatedLen(), result.value))
 //@ end
 
 //@ func licenseLookup
 //@   modifies nothing
+//@   ensures[C05,C08,C09] result != nil <==> inAE(license)
+//@   ensures[C09,C06] result != nil ==> EqualFold(result.value, license) && ((result.role == 3 && occc(ActiveSeq(), ActiveLen(), result.value)) || (result.role == 4 && occc(ExceptionSeq(), ExceptionLen(), result.value)))
 //@ end
 
 //@ func deprecatedLicenseLookup
 //@   modifies nothing
+//@   ensures[C05,C08,C09] result != nil <==> inDep(license)
+//@   ensures[C09,C06] result != nil ==> EqualFold(result.value, license) && result.role == 3 && occc(DeprecatedSeq(), DeprecatedLen(), result.value)
 //@ end
 
 // ---------------------------------------------------------------------------
 // license.go
 
+// foldIn(c, n, id): some of the first n entries of c equals id up to letter case (opaque, with Skolem witness)
+//@ fn foldc(c seq[string], n int, id string) bool
+//@ fn foldw(c seq[string], n int, id string) int
+//@ axiom forall c seq[string], n int, id string {foldc(c, n, id)} :: foldc(c, n, id) ==> 0 <= foldw(c, n, id) && foldw(c, n, id) < n && EqualFold(c[foldw(c, n, id)], id)
+//@ axiom forall c seq[string], n int, id string, k int {foldc(c, n, id), c[k]} :: 0 <= k && k < n && EqualFold(c[k], id) ==> foldc(c, n, id)
+// membership in the shipped lists, and the id classification of C05 written from the property text: a lexeme is a
+// valid id iff it is listed (case-insensitively) on the active, exception or deprecated list, or is a listed
+// (active / exception) id carrying -only or -or-later, or is followed by '+' and its -or-later form is listed
+//@ pred inAct(id string) = foldc(ActiveSeq(), ActiveLen(), id)
+//@ pred inExcp(id string) = foldc(ExceptionSeq(), ExceptionLen(), id)
+//@ pred inDep(id string) = foldc(DeprecatedSeq(), DeprecatedLen(), id)
+//@ pred inAE(id string) = inAct(id) || inExcp(id)
+//@ pred validId(l string, nextPlus bool) = inAE(l) || (HasSuffix(l, "-only") && inAE(l[0:len(l) - 5])) || (nextPlus && inAE(l + "-or-later")) || (HasSuffix(l, "-or-later") && inAE(l[0:len(l) - 9])) || inDep(l)
+
 //@ func inLicenseList
 //@   modifies nothing
+//@   ensures[C05,C08,C09] result0 <==> foldc(elems(licenses), len(licenses), id)
+//@   ensures[C09,C06] result0 ==> occc(elems(licenses), len(licenses), result1) && EqualFold(result1, id)
 //@   ensures[C09] result0 <==> (exists k :: 0 <= k && k < len(licenses) && EqualFold(licenses[k], id))
 //@   ensures[C09] result0 ==> (exists k :: 0 <= k && k < len(licenses) && EqualFold(licenses[k], id) && result1 == licenses[k] && forall j :: 0 <= j && j < k ==> !EqualFold(licenses[j], id))
 //@   ensures[C09] !result0 ==> result1 == id
